@@ -87,6 +87,8 @@ PROPS = {
 
 
 PROPS["C19"]["replays"] = 3
+for _p in ("C10", "C11"):
+    PROPS[_p]["quick"] = {"traces": 96, "steps": 90, "timeout": 600}
 
 # properties not claimed (none: every property is decided by the same technique; C19 at level `other`)
 NOT_APPLICABLE = {}
